@@ -15,11 +15,12 @@
 
   The lifting to documents is `default_accepts_extensions` / `strict_rejects_extensions` at the end
   of this file: for every RFC 8259 document with any number of comments, trailing commas, single-
-  quoted strings / member names and non-lowercase literals at any admissible positions
+  quoted strings / member names, raw control characters in strings / names and non-lowercase
+  literals at any admissible positions
   (`Spec/Rfc8259X.lean`), default mode returns the value of the original document and strict mode
   fails - two inductions over the extended document type (Lemmas/TokenerXDoc1-4, TokenerXRej1-5).
-  The token-changing forms (control characters, leading zeros, digit-less exponents, trailing bytes)
-  are covered by the per-token theorems here; the differential run decides all eight forms on every
+  Trailing bytes are `trailing_bytes` (whole documents, three modes).  Leading zeros and digit-less
+  exponents are covered by the per-token theorems here; the differential run decides all eight forms on every
   admissible position of every generated document.
 -/
 import JsonC.Props.C04
@@ -160,7 +161,8 @@ theorem trailing_accepted (e : LoopEnd) (top : Level) (hst : e.tok.stack = [top]
 /-! ### documents with extensions (Spec/Rfc8259X.lean)
 
 `XText` = an RFC 8259 text in which comments (in every gap), trailing commas, single-quoted strings
-and member names, and literals with upper-case letters may occur, any number of times, at every
+and member names, raw control characters inside strings and member names, and literals with
+upper-case letters may occur, any number of times, at every
 position where they are syntactically possible; `erase` is the original RFC 8259 text. -/
 
 open Rfc8259X in
@@ -234,6 +236,14 @@ def sampleX : XText :=
   ⟨[], .arr [] [([], .num ⟨false, [1], none, none⟩, []),
                ([.ws .sp, .block [99], .ws .sp], .str .sq [.raw 97], []),
                ([.ws .sp], .lit .true_ [true, true, true, true], [])] (some []), []⟩
+
+open Rfc8259X in
+/-- a string and a member name with raw control characters: `{"a\x01":"\x1f"}` -/
+def sampleCtl : XText := ⟨[], .obj [] [([], .dq, [.raw 97, .raw 1], [], [], .str .dq [.raw 31], [])] none, []⟩
+
+open Rfc8259X in
+example : sampleCtl.ok = true ∧ sampleCtl.plain = false ∧ sampleCtl.text = [123, 34, 97, 1, 34, 58, 34, 31, 34, 125] := by
+  refine ⟨?_, ?_, ?_⟩ <;> decide
 
 open Rfc8259X in
 example : sampleX.ok = true ∧ sampleX.plain = false ∧ sampleX.doc.erase.keysNulFree = true ∧ sampleX.doc.erase.intsFit = true ∧
